@@ -7,6 +7,7 @@ package main
 import (
 	"fmt"
 	"math"
+	"strings"
 	"time"
 
 	sdk "github.com/cosmos/cosmos-sdk/types"
@@ -47,6 +48,24 @@ func runProbe(name string) {
 		}
 		fmt.Println("reward block", c.H, "processed without panic; prover 3 balance", c.A.BankKeeper.GetBalance(c.Ctx(), U[3], "ujkl"))
 		_ = sdk.Coin{}
+	case "self-referral-spelling":
+		// C04: the self-referral test compares the resolved referrer's canonical address with the raw
+		// creator string; an upper-case spelling of one's own address passes as a distinct referrer
+		c := NewChain(3, []string{"ujkl"}, nil)
+		U := c.Users
+		c.Begin(6 * time.Second)
+		fee := c.A.AccountKeeper.GetModuleAddress("fee_collector")
+		bal := func(a sdk.AccAddress) sdk.Int { return c.A.BankKeeper.GetBalance(c.Ctx(), a, "ujkl").Amount }
+		for _, who := range []struct{ label, creator, ref string }{
+			{"no referral", U[0].String(), ""},
+			{"self referral, same spelling", U[0].String(), U[0].String()},
+			{"self referral, creator in upper case", strings.ToUpper(U[0].String()), U[0].String()},
+		} {
+			b0, f0 := bal(U[0]), bal(fee)
+			r := c.Deliver(&sttypes.MsgBuyStorage{Creator: who.creator, ForAddress: U[1].String(), DurationDays: 30, Bytes: 3_000_000_000_000, PaymentDenom: "ujkl", Referral: who.ref})
+			fmt.Printf("%-40s ok=%v net cost to buyer %s, stakers pool +%s %s\n", who.label, r.OK, b0.Sub(bal(U[0])), bal(fee).Sub(f0), r.Err)
+			c.NextBlock(40 * 24 * time.Hour) // let the plan lapse so that every purchase is a fresh one
+		}
 	default:
 		fmt.Println("unknown probe", name)
 	}
